@@ -706,6 +706,19 @@ func (e *Env) callExpr(x ECall) Term {
 		}
 		gt := e.lookupType(ts.V)
 		return Term{S: app("=", app("Iface_tag", t.S), fmt.Sprint(fv.tagOf(gt))), Sort: SBool}
+	case "implements":
+		// implements(x, "pkg.Iface"): the dynamic type of interface value x implements Iface
+		argn(2)
+		t := e.eval(x.Args[0])
+		ts, ok := x.Args[1].(EStr)
+		if !ok || t.Sort.Kind != KIface {
+			e.fail("implements(iface, \"T\")")
+		}
+		gt := e.lookupType(ts.V)
+		name := "impl_" + sanitize(types.TypeString(gt, func(p *types.Package) string { return p.Name() }))
+		fv.declareFun(name, []string{"Int"}, "Bool")
+		fv.implAsserted(gt, name)
+		return Term{S: smtAnd(smtNot(app("=", app("Iface_tag", t.S), "0")), app(name, app("Iface_tag", t.S))), Sort: SBool}
 	case "dyn":
 		// dyn(x, "T"): the dynamic value of interface x as T
 		argn(2)
